@@ -186,9 +186,13 @@ def check_C05(tier, seed):
     n_rand = 900 if quick else 20000
     scripts = [scen.flow_script(r, i, fate_vec=v) for i, v in enumerate(sample(vecs, n_vec, r))]
     scripts += [scen.flow_script(r, len(scripts) + i) for i in range(n_rand)]
-    mcs = [("Credit.tla", "MC_Credit.cfg" if quick else "MC_Credit3.cfg")]
+    # credit that was lost on the way has to be granted again (extension, DESIGN 0.8): flow workloads
+    # under heavy finite loss with a long quiet tail
+    scripts += [scen.retx_script(r, len(scripts) + i, fate_vec=v) for i, v in enumerate(sample(vecs, 300 if quick else 2000, r))]
+    scripts += [scen.retx_script(r, len(scripts) + i) for i in range(500 if quick else 6000)]
+    mcs = [("Credit.tla", "MC_Credit.cfg" if quick else "MC_Credit3.cfg"), ("Retx.tla", "MC_Retx.cfg")]
     return generic("C05", tier, seed, mcs, scripts,
-                   [("flow", "FlowTrace.tla", "FlowTrace.cfg")],
+                   [("flow", "FlowTrace.tla", "FlowTrace.cfg"), ("retx", "RetxTrace.tla", "RetxTrace.cfg")],
                    ["the peer's limits are decoded independently from the transport parameter bytes tapped at the crypto provider and from MAX_* frames in datagrams the harness delivered and FrameStats shows as processed",
                     "write()/open() results are compared with the credit in the probe taken immediately before the call",
                     "values above 2^30 are clamped (TLC integers); no run moves that much data",
@@ -416,7 +420,8 @@ def replay_C04(scripts):
 
 
 def replay_C05(scripts):
-    return generic("C05", "quick", 0, [], scripts, [("flow", "FlowTrace.tla", "FlowTrace.cfg")], [], shards=1)
+    return generic("C05", "quick", 0, [], scripts, [("flow", "FlowTrace.tla", "FlowTrace.cfg"),
+                                                     ("retx", "RetxTrace.tla", "RetxTrace.cfg")], [], shards=1)
 
 
 def replay_C12(scripts):
